@@ -130,6 +130,8 @@ def render_op(name, op):
     if k == "rm":
         _, t, pat = op
         return '"${%s%s%s}"' % (name, t, "" if pat is None else render_pat(pat))
+    if k == "rmx":
+        return '"${%s%s%s}"' % (name, op[1], op[2])
     raise ValueError(op)
 
 
@@ -143,6 +145,8 @@ def wire_op(op):
         return "t %s %d %s" % (op[1], 1 if op[2] else 0, esc(op[3]))
     if k == "rm":
         return "rm %s %s" % (op[1], "!" if op[2] is None else wire_pat(op[2]))
+    if k == "rmx":
+        return "rmx %s %s" % (op[1], esc(op[2]))
     raise ValueError(op)
 
 
@@ -152,6 +156,8 @@ class Case:
     def __init__(self, tag, param, op, nounset=False):
         self.tag, self.param, self.op, self.nounset = tag, param, op, nounset
         setup, name, probe = render_param(param)
+        if op[0] == "rmx":
+            setup = "shopt -s extglob\n" + setup
         if nounset:
             setup += "\nset -u"
         self.setup, self.word, self.probe = setup, render_op(name, op), probe
@@ -387,6 +393,83 @@ def exhaustive(ctx):
     return out
 
 
+# -- extglob groups whose alternatives are prefixes / suffixes of one another ---------------------
+
+XKINDS = ["@", "+", "*", "?", "!"]
+XALTS = [["a", "ab"], ["ab", "a"], ["a", "aa"], ["aa", "a"], ["b", "ab"], ["ab", "b"], ["a", "ba"], ["a", "b"],
+         ["a"], ["ab"], ["a", "ab", "abb"], ["b", "bab", "ba"]]
+XWRAP = [("", ""), ("b", ""), ("", "b"), ("*", ""), ("", "*")]
+XWRAP_MORE = [("a", ""), ("", "a"), ("?", ""), ("", "?"), ("a", "b"), ("b", "a"), ("*", "b"), ("a", "*")]
+
+
+def xpat(kind, alts, pre="", post=""):
+    return "%s%s(%s)%s" % (pre, kind, "|".join(alts), post)
+
+
+def extglob_exhaustive(ctx):
+    out = []
+    wraps = XWRAP + ([] if ctx.quick else XWRAP_MORE)
+    vals = list(strings(["a", "b"], 4)) + ["aabab", "ababa", "abbab", "babab"]
+    if not ctx.quick:
+        vals = list(strings(["a", "b"], 5)) + ["ababab", "aabbab"]
+    for kind in XKINDS:
+        for alts in XALTS:
+            for pre, post in wraps:
+                if kind == "!" and ("*" in pre + post or "?" in pre + post):
+                    continue    # bash's own `*!(…)` / `!(…)*` is not the complement either; keep the oracle clean
+                pt = xpat(kind, alts, pre, post)
+                for k in RM_KINDS:
+                    for v in vals:
+                        out.append(Case("xexh", ("named", v, ""), ("rmx", k, pt)))
+    # the seeded-regression witnesses and list parameters
+    for v, pt in [("abc", "@(a|ab)"), ("aab", "+(a|ab)"), ("foobar", "!(foo)"), ("abcabc", "+(a|ab|abc)"),
+                  ("/usr/local/bin/x", "+(/|/usr)"), ("abc", "?(a|ab)"), ("abab", "*(a|ab)b")]:
+        for k in RM_KINDS:
+            out.append(Case("xexh", ("named", v, ""), ("rmx", k, pt)))
+            out.append(Case("xexh", ("all", [v, "ab", ""], False, False), ("rmx", k, pt)))
+            out.append(Case("xexh", ("posall", [v, "ba"], True), ("rmx", k, pt)))
+    return out
+
+
+def rand_xpat(rng, depth=0):
+    words = ["a", "b", "ab", "ba", "aa", "abb", "aab", "?", "a*", "[ab]", "é"]   # no empty alternative (bash quirks)
+    n = rng.randint(1, 3)
+    alts = []
+    for _ in range(n):
+        if depth == 0 and rng.random() < 0.15:
+            alts.append(rng.choice(["a", "b"]) + rand_xpat(rng, 1))
+        else:
+            alts.append(rng.choice(words))
+    if rng.random() < 0.5 and len(alts) >= 2:      # force a prefix/suffix relation
+        alts[1] = alts[0] + rng.choice(["a", "b"]) if rng.random() < 0.5 else rng.choice(["a", "b"]) + alts[0]
+    kind = rng.choice(XKINDS)
+    outer = ["", "", "a", "b"] + ([] if (kind == "!" or "!(" in "".join(alts)) else ["*", "?"])
+    pre, post = rng.choice(outer), rng.choice(outer)
+    return xpat(kind, alts, pre if depth == 0 else "", post if depth == 0 else "")
+
+
+def extglob_random(ctx, n):
+    rng = ctx.rng
+    out = []
+    for _ in range(n):
+        v = "".join(rng.choice("aabbé") for _ in range(rng.randint(0, 6)))
+        out.append(Case("xrand", ("named", v, ""), ("rmx", rng.choice(RM_KINDS), rand_xpat(rng))))
+    return out
+
+
+def extglob_direct(ctx):
+    """replacement with extglob groups: brush against bash"""
+    out = []
+    vals = list(strings(["a", "b"], 3 if ctx.quick else 4)) + ["abab", "aabab"]
+    for kind in XKINDS:
+        for alts in XALTS[:8]:
+            pt = xpat(kind, alts)
+            for v in vals:
+                for form in ("/", "//", "/#", "/%"):
+                    out.append(Direct("replace-extglob", "shopt -s extglob\nv=" + sq(v), '"${v%s%s/X}"' % (form, pt)))
+    return out
+
+
 def rand_value(rng, maxlen=6):
     return "".join(rng.choice(ALPHA) for _ in range(rng.randint(0, maxlen)))
 
@@ -495,6 +578,17 @@ def direct_clause(c, b, o):
         return "pattern_anchors_at_newlines"
     if c.feat == "sparse-slice":
         return "sparse_array_slice_by_position"
+    mt = re.search(r"([@+*?!])\(([^()]*)\)", c.word)
+    if c.feat == "replace-extglob" and mt:
+        kind, alts = mt.group(1), mt.group(2).split("|")
+        if kind == "!":
+            return "extglob_negation_not_complement"
+        if kind in "*?":
+            return "replace_empty_match_differs"
+        if any(alts[j].startswith(alts[i]) and alts[i] != alts[j] for i in range(len(alts)) for j in range(i + 1, len(alts))):
+            return "replace_alternation_leftmost_first"
+    if c.feat == "rmx" and "!(" in c.word:
+        return "extglob_negation_not_complement"
     return None
 
 
@@ -512,7 +606,7 @@ def load_corpus():
                         c.tag, c.param, c.op, c.nounset = "corpus", None, None, False
                         c.setup, c.word, c.probe, c.wire = rec["setup"], rec["word"], rec["probe"], rec["wire"]
                         c.feat = rec["wire"].split(" ")
-                        c.feat = next((t for t in ("plain", "len", "sub", "rm") if t in c.feat), "test")
+                        c.feat = next((t for t in ("plain", "len", "sub", "rm", "rmx") if t in c.feat), "test")
                     else:
                         c = Direct(rec.get("feature", "corpus"), rec["setup"], rec["word"], rec.get("probe", "-"))
                         c.tag = "corpus"
@@ -520,7 +614,7 @@ def load_corpus():
     return out
 
 
-CLAUSE_PRIORITY = ["substring_negative_length", "length_counts_bytes", "shortest_match_skips_empty",
+CLAUSE_PRIORITY = ["extglob_negation_not_complement", "substring_negative_length", "length_counts_bytes", "shortest_match_skips_empty",
                    "pattern_anchors_at_newlines", "all_null_elements_count_as_null",
                    "at_alternative_on_empty_list_keeps_field"]
 
@@ -539,6 +633,17 @@ def evaluate(ctx, cases, bouts, oouts, mouts, limit=25):
                 elif nviol < limit:
                     nviol += 1
                     ctx.violation("brush and bash differ (operator outside the Lean model; found by exploration)", case)
+            continue
+        if m == "uncovered":     # pattern outside the fragment the pattern models speak about: brush against bash
+            ctx.count(c.key(), bucket="uncovered:" + c.feat)
+            if not same(b, o):
+                cl = direct_clause(c, b, o)
+                case = dict(c.as_json(), brush=b, bash=o)
+                if cl:
+                    ctx.known_or_violation(cl, "brush and bash differ on a pattern outside the model", case)
+                elif nviol < limit:
+                    nviol += 1
+                    ctx.violation("brush and bash differ (pattern outside the Lean model; found by exploration)", case)
             continue
         parts = m.split(" | ")
         if len(parts) < 3:
@@ -593,7 +698,10 @@ def run(ctx):
     cases = load_corpus()
     cases += exhaustive(ctx)
     cases += random_cases(ctx, ctx.size(6000, 120000))
+    cases += extglob_exhaustive(ctx)
+    cases += extglob_random(ctx, ctx.size(3000, 40000))
     cases += direct_cases(ctx, 0)
+    cases += extglob_direct(ctx)
     # de-duplicate (the exhaustive families overlap)
     seen, uniq = set(), []
     for c in cases:
